@@ -1,34 +1,71 @@
 import Hannibal.Monitor.Basic
 /-
   C11 — handler timeouts abandon exactly the invocations that exceed the limit.
+
+  `monC11`  : an invocation is abandoned only if a timeout t is configured (plain actors) and never before
+              t has elapsed since it began; only handler invocations are ever abandoned; an abandoned
+              invocation produces no further context effects; with fail_on_timeout nothing is handled any
+              more afterwards; without a configured timeout nothing is ever abandoned.
+  `monC11p` : on prompt schedules an invocation needing less than t completes and one needing more is
+              abandoned exactly at t; the caller of an abandoned invocation receives an error.
 -/
 namespace Hannibal
 
 structure C11St where
   clock : Nat
-  cur : Option (Nat × Nat × Nat)     -- open handler invocation: (message, begin time, announced work)
-  ops : List (Nat × Nat)             -- call op ↦ message
-  abandoned : List Nat
+  cur : Option (Nat × Nat)           -- open handler invocation: (message, begin time)
   afterAbandon : Bool                -- an invocation was abandoned and no callback began since
   cancelled : Bool
   dead : Bool                        -- fail_on_timeout fired
   deriving Repr, DecidableEq
 
+def tmoOf (c : Cfg) : Option Nat := if c.stream then none else c.timeout
+
+def bad11 (c : MonCtx) (st : C11St) : Label → Bool
+  | .cbAbandon cb =>
+    !st.cancelled &&
+      (match cb, st.cur, tmoOf c.cfg with
+       | .handle m, some (m', b), some t => !(m == m' && st.clock ≥ b + t)   -- never before t
+       | _, _, _ => true)                                                    -- no timeout / not a handler
+  | .ctxStop _ | .ctxRestart _ | .ctxTimer _ _ _ | .ctxWeak _ _ => st.afterAbandon
+  | .cbBegin _ => st.dead
+  | _ => false
+
+def next11 (c : MonCtx) (st : C11St) : Label → C11St
+  | .time t => { st with clock := t }
+  | .cbBegin (.handle m) => { st with cur := some (m, st.clock), afterAbandon := false }
+  | .cbBegin _ => { st with cur := none, afterAbandon := false }
+  | .cbEnd _ _ => { st with cur := none }
+  | .cbAbandon _ =>
+    if st.cancelled then { st with cur := none }
+    else { st with cur := none, afterAbandon := true, dead := c.cfg.failOnTimeout }
+  | .cbPanic _ => { st with cur := none }
+  | .cancel => { st with cancelled := true }
+  | _ => st
+
 def monC11 (c : MonCtx) : Mon C11St where
-  init := { clock := 0, cur := none, ops := [], abandoned := [], afterAbandon := false, cancelled := false, dead := false }
+  init := { clock := 0, cur := none, afterAbandon := false, cancelled := false, dead := false }
+  step st l := if bad11 c st l then none else some (next11 c st l)
+
+structure C11pSt where
+  clock : Nat
+  cur : Option (Nat × Nat × Nat)     -- (message, begin time, announced work)
+  ops : List (Nat × Nat)             -- call op ↦ message
+  abandoned : List Nat
+  cancelled : Bool
+  deriving Repr, DecidableEq
+
+def monC11p (c : MonCtx) : Mon C11pSt where
+  init := { clock := 0, cur := none, ops := [], abandoned := [], cancelled := false }
   step st l :=
-    let tmo := if c.cfg.stream then none else c.cfg.timeout
+    let tmo := tmoOf c.cfg
     match l with
     | .time t => some { st with clock := t }
     | .begin o _ k =>
-      (match k, k.msg? with
-       | .call _, some m | .callw _, some m | .tryCall _, some m => some { st with ops := (o, m) :: st.ops }
+      (match k.isCall, k.msg? with
+       | true, some m => some { st with ops := (o, m) :: st.ops }
        | _, _ => some st)
-    | .cbBegin cb =>
-      if st.dead then none else
-      (match cb with
-       | .handle m => some { st with cur := some (m, st.clock, 0), afterAbandon := false }
-       | _ => some { st with afterAbandon := false })
+    | .cbBegin (.handle m) => some { st with cur := some (m, st.clock, 0) }
     | .work d =>
       (match st.cur with
        | some (m, b, w) => some { st with cur := some (m, b, w + d) }
@@ -43,16 +80,10 @@ def monC11 (c : MonCtx) : Mon C11St where
       if st.cancelled then some { st with cur := none } else
       (match st.cur, tmo with
        | some (_, b, w), some t =>
-         -- abandoned at t, never earlier; one that needs less than t completes (prompt schedules)
-         if st.clock < b + t then none
-         else if c.prompt && (w < t || st.clock != b + t) then none
-         else some { st with cur := none, abandoned := m :: st.abandoned, afterAbandon := true,
-                             dead := c.cfg.failOnTimeout }
-       | _, _ => none)               -- no timeout configured: nothing is ever abandoned
-    | .cbAbandon _ => if st.cancelled then some st else none
-    | .ctxStop _ | .ctxRestart _ | .ctxTimer _ _ _ | .ctxWeak _ _ =>
-      -- an abandoned invocation produces no further effects
-      if st.afterAbandon then none else some st
+         -- one that needs less than t completes; abandonment happens exactly at t (prompt schedules)
+         if c.prompt && (w < t || st.clock != b + t) then none
+         else some { st with cur := none, abandoned := m :: st.abandoned }
+       | _, _ => some st)
     | .ret o r =>
       (match lookup o st.ops with
        | some m => if st.abandoned.contains m && !r.isErr then none else some st
